@@ -321,7 +321,13 @@ def check(pid, tier, seed):
     # differential / oracle checks that are not scenario-shaped
     extra = {}
     if hasattr(mod, "extra_checks"):
-        extra = mod.extra_checks(seed, tier) or {}
+        try:
+            extra = mod.extra_checks(seed, tier) or {}
+        except Exception as e:
+            # the differential drives the real function with stand-in objects: if the function no longer runs on them the kernel
+            # and the code have drifted apart - a broken correspondence, to be followed by the search, not an internal error
+            extra = {"broken": [{"what": "kernel differential could not run the implementation",
+                                 "detail": "%s: %s | %s" % (type(e).__name__, e, traceback.format_exc()[-600:])}]}
         for h in extra.get("hits", []):
             hits.append((h, h.get("desc"), None))
         for b in extra.get("broken", []):
